@@ -53,3 +53,14 @@ claim("C16",
 claim("C12",
       "Decides exhaustiveness of the AST walk from types: every child from which a Field is reachable is bound and forwarded in its own arm of all 14 walk/walk_mut implementations over the whole collection; default visitor methods forward to walk; the usage visitors only add the early-exit guard and set the flag under field equality; uses_list counts a field only inside an InList comparison and keeps walking; the four entry points resolve the name first and return an error for unknown names.",
       TB, "ADT field-reachability vs. walk bodies (HIR), visitor table rules")
+claim("C09",
+      "Necessary-condition check, stated as such: RangeSet has exactly one constructor, which sorts the adopted vector by range start and then merges overlaps before the set exists; collect() funnels into it; the binary search is used only by contains(); IPv4 and IPv6 ranges are split by address family into separately typed sets and looked up by family; byte strings use an ordered-set lookup; absent value -> false. The interval arithmetic of the merge closure and the comparator is NOT decided.",
+      TB, "who-may-construct + preceding-call (sort, merge) rules over HIR")
+claim("C10",
+      "Decides the specialisation table and gating on all arms: length k in 2..=16 selects slice_to_array::<k>/ArraySearcher<k> (15 arms, const generics resolved by rustc), other lengths the boxed searcher, empty -> constant true, one byte -> memchr, fallback -> memmem; the anchor is drawn from the exclusive range 1..len after the short-pattern returns; all 32 AVX2 constructions and the two search call sites are inside the `*USE_AVX2` branch whose initialiser is feature-detection && !opt-out; absent -> false. Correctness of sliceslice/memchr and agreement between paths are not decided.",
+      TB + " wasm32 path not compiled on the host.",
+      "match-arm/const-generic table extraction + gate dominance over HIR")
+claim("C11",
+      "Decides the configuration clauses: the regex syntax/meta builder chains carry unicode(false), utf8(false), LeftmostFirst, utf8_empty(false) and the limits from the parser settings, is_match is the unanchored byte search; wildcard builder: `?` disabled, case_insensitive(!STRICT), whole-value is_match; validate (count > limit, `**`) precedes construction and all failures are parse errors; operator->Wildcard<STRICT> wiring; the only quoted-regex rewrite is dropping the backslash before a quote outside a class. Engine semantics are trusted.",
+      TB + " regex-automata and wildcard crate semantics are trusted.",
+      "builder-chain constant extraction (HIR) vs. spec")
